@@ -403,6 +403,7 @@ func main() {
 	timeout := fl.Int("t", 0, "per-query timeout ms")
 	solversF := fl.String("solvers", "", "comma list of solver name prefixes")
 	verbose := fl.Bool("v", false, "verbose")
+	only := fl.String("only", "", "check only obligations whose name contains this substring (debug)")
 	var pos []string
 	rest := os.Args[2:]
 	for len(rest) > 0 && !strings.HasPrefix(rest[0], "-") {
@@ -411,6 +412,7 @@ func main() {
 	}
 	fl.Parse(rest)
 	pos = append(pos, fl.Args()...)
+	onlyFilter = *only
 	opt := &Options{repo: *repo, verifDir: *vdir, tier: *tier, prop: *prop, keepSMT: *keep, wantModel: true}
 	if *solversF != "" {
 		opt.solvers = strings.Split(*solversF, ",")
@@ -440,6 +442,12 @@ func main() {
 				os.WriteFile(*dump, []byte(r.Script.Text("")), 0o644)
 			}
 		}
+	case "replay":
+		if len(pos) != 1 {
+			fmt.Fprintln(os.Stderr, "usage: gvc replay <replay.json>")
+			os.Exit(2)
+		}
+		os.Exit(replayFile(opt, pos[0]))
 	case "list":
 		ld, sf := mustLoad(opt)
 		for _, k := range sortedKeys(sf.Funcs) {
@@ -661,6 +669,7 @@ func checkProperty(opt *Options, start time.Time) int {
 			}
 		}
 		if isKnown {
+			total-- // a recorded finding is reported, not counted among the obligations claimed discharged
 			continue
 		}
 		violations++
